@@ -86,3 +86,22 @@ theorem rs_encode_exists (env : Env) (k m ct : Nat) (hk : 1 ≤ k) (hkm : k + m 
   exact encode_ok_of_backend env _ (rsInst k m ct) data _ parP hs.enc
 
 end Lec
+
+namespace Lec
+
+/-- the instance record `create` returns for flat_xor_hd. -/
+def xorInst (k m ct : Nat) : Inst := { beId := 3, beVer := 0x010000, k := k, m := m, w := 32, ct := ct }
+
+theorem xorShape_bounds {k m hd : Nat} (h : xorShapeOK k m hd = true) : 3 ≤ k ∧ k + m ≤ 26 ∧ 3 ≤ hd ∧ hd ≤ 4 := by
+  unfold xorShapeOK at h
+  simp only [Bool.or_eq_true, Bool.and_eq_true, beq_iff_eq, decide_eq_true_eq] at h
+  omega
+
+theorem xor_frontOK (env : Env) (k m hd ct len : Nat) (hs : xorShapeOK k m hd = true) (hct : ct < 256)
+    (hlv : env.libver < 2 ^ 32) (hl0 : env.libver ≠ 0) (hlen : len < 2 ^ 31 - 2 ^ 12) :
+    FrontOK env (xorInst k m ct) len := by
+  have hb := xorShape_bounds hs
+  exact frontOK_of_created env (xorInst k m ct) len (by simp [xorInst]; omega) (by simp [xorInst]; omega)
+    (by simp [xorInst]) (by simp [xorInst]) hct (by simp [xorInst]) (by simp [xorInst]) hlv hl0 hlen
+
+end Lec
